@@ -72,11 +72,11 @@ func (f *Query) TokenReader() xml.TokenReader {
 	}
 	if !f.Start.IsZero() {
 		/* #nosec */
-		dataForm.Set(fieldStart, f.Start.UTC().Format(time.RFC3339))
+		dataForm.Set(fieldStart, f.Start.UTC().Format(time.RFC3339Nano))
 	}
 	if !f.End.IsZero() {
 		/* #nosec */
-		dataForm.Set(fieldEnd, f.End.UTC().Format(time.RFC3339))
+		dataForm.Set(fieldEnd, f.End.UTC().Format(time.RFC3339Nano))
 	}
 	if f.AfterID != "" {
 		/* #nosec */
